@@ -46,7 +46,7 @@ def counts():
     aud = json.load(open(os.path.join(V, "audited_sites.json")))
     n_aud = len(aud if isinstance(aud, list) else aud.get("sites", aud))
     req = len(re.findall(r"def req_", open(os.path.join(V, "sa", "audit_facts.py")).read()))
-    return {"MUTANTS": len(glob.glob(os.path.join(V, "mutants", "*.patch"))), "BENIGN": len(glob.glob(os.path.join(V, "benign", "*.patch"))) + len(glob.glob(os.path.join(V, "benign", "wave", "*.patch"))),
+    return {"MUTANTS": len(glob.glob(os.path.join(V, "mutants", "*.patch"))), "BENIGN": len(glob.glob(os.path.join(V, "benign", "*.patch"))) + len(glob.glob(os.path.join(V, "benign", "wave*", "*.patch"))),
             "AUDITED": n_aud, "REQS": req, "SEEDS": len(glob.glob(os.path.join(V, "seeded", "*", "meta.json")))}
 
 
